@@ -192,6 +192,7 @@ def rule_ping(ctx, repo):
 
 
 def rule_unsupported(ctx, repo, tier):
+    reported_mixed = []
     for flags in configs(tier):
         if not flags["media"] and tier != "thorough":
             pass
@@ -202,6 +203,7 @@ def rule_unsupported(ctx, repo, tier):
         w = where("yowsup/layers/protocol_messages/layer.py", "recvMessageStanza (messages / media layers)", None)
         res = enumerate_cells(lambda cell, d: sim.receive("message", cell, d), doms, max_cells=6000)
         bad = {}
+        mixed = []
         n_unsup = 0
         for cell, rs in res:
             view = cell_view(cell)
@@ -219,7 +221,14 @@ def rule_unsupported(ctx, repo, tier):
             else:
                 pl = view.get("proto/#payload", "unasked")
                 supported = pl in ("conversation", "extended_text")
-                skdm_only = (not supported) and bool(view.get("<proto/#sender_key_distribution>"))
+                has_skdm = bool(view.get("<proto/#sender_key_distribution>"))
+                skdm_only = has_skdm and pl in (None, "unasked")
+                if has_skdm and not supported and not skdm_only and not rs["raised"]:
+                    # a key distribution TOGETHER with content the library cannot present (revoke, a media kind without
+                    # a media type, an unmodelled kind) is not a pure key-distribution payload: it is owed the receipt
+                    if len(rcpts) != 1:
+                        mixed.append(lab)
+                    continue
             if skdm_only:
                 continue        # pure key-distribution payloads are outside the statement's quantifier
             want = 0 if supported else 1
@@ -239,6 +248,10 @@ def rule_unsupported(ctx, repo, tier):
                     ok = False
                 if not ok:
                     bad.setdefault("receipt does not name the message: <%s id=%s to=%s participant=%s>" % (tagname(r), show(attr(r, "id")), show(attr(r, "to")), show(attr(r, "participant"))), []).append(lab)
+        if mixed and not reported_mixed:
+            reported_mixed.append(1)
+            ctx.violate("C07.unsupported", w, "key distribution together with unpresentable content",
+                        "a group message that carries a sender-key distribution AND content the library cannot present gets no receipt and is not delivered: the receipt branch is skipped whenever a key distribution is present, not only for pure key-distribution payloads (%d cell(s), e.g. %s)" % (len(mixed), mixed[0][:120]))
         label = "unsupported message payloads [modules %s]" % fl
         if bad:
             for what, labs in sorted(bad.items()):
